@@ -323,7 +323,19 @@ struct lp_msg *vw_msg_queue_extract(void)
 		rs_fail("C04 thread %d extracted a message with timestamp %g below the GVT %g it was told", th, msg->dest_t, gvt_last[th]);
 	uint32_t f = msg->raw_flags;
 	if(f & MSG_FLAG_ANTI) {
-		if(f & MSG_FLAG_PROCESSED)
+		if(f >> 2) {
+			/* anti-message that came from another rank: did the event it cancels arrive before it? */
+			rs_count(C_REMOTE_ANTI_RECV, 1);
+			struct lp_ctx *lp = &LPS[msg->dest];
+			uint32_t id = f - MSG_FLAG_ANTI;
+			int found = 0;
+			for(array_count_t i = 0; i < array_count(lp->p.p_msgs) && !found; ++i) {
+				struct lp_msg *m = array_get_at(lp->p.p_msgs, i);
+				found = is_msg_past(m) && m->raw_flags == (id | MSG_FLAG_PROCESSED) && m->m_seq == msg->m_seq;
+			}
+			if(!found)
+				rs_count(C_EARLY_ANTI, 1);
+		} else if(f & MSG_FLAG_PROCESSED)
 			rs_count(C_ANTI_AFTER_PROC, 1);
 		else
 			rs_count(C_ANTI_BEFORE_PROC, 1);
